@@ -13,7 +13,7 @@ reg(Prop('C10', [
         'read_*_refines, find_spec, to_string_spec: reads are the list-level codecs of Model/Prim.v (C09) on the reader bytes and leave exactly the unconsumed rest; find = first occurrence; to_string accepts exactly well-formed UTF-8 (Unicode table 3-7)',
         'offset_ids, offset_from_section, history_offset_ids: lookup_offset_id(section, offset_id(r)) = Some(position of r) for every reader of every history; accepted ids are exactly the section addresses; others map to None',
         'reloc_identity(+_histories): RelocateReader<EndianReader, identity> = the inner reader for every call and every history (split = clone+truncate+skip; address/offset reads call offset_from(section) first)',
-        'kinds_agree_except_empty(+_histories), kinds_agree_refuted: the EndianSlice model and the EndianReader model give identical readers and results for every call except `empty` (witness = the known finding; with the proposed fix the side condition dang = ptr c holds)',
+        'kinds_agree, kinds_agree_histories: the EndianSlice model and the EndianReader model give identical readers and results for every call (including `empty`) and every history',
     ],
     explored_only=[
         'that the five Rust reader kinds (EndianSlice, EndianRcSlice, EndianArcSlice, EndianReader<_, custom StableDeref buffer>, RelocateReader<_, identity> over slice and Rc) equal the model and each other: differential execution after every call (result/error, offset_from(section), len, bytes = section[off..off+len], to_slice borrowed, pointer range inside the source buffer, lookup_offset_id round trip)',
@@ -23,7 +23,7 @@ reg(Prop('C10', [
         'to_string_lossy (compared with String::from_utf8_lossy in the harness only); LEB128/initial-length reads through a reader (C09 covers the codecs)',
     ],
     design_ref='§5 C10',
-    level_text='Coq theorems over a function-by-function Gallina model of the reader kinds (one Reader-trait record instantiated for EndianReader/SubRange, EndianSlice and RelocateReader): the window invariant off+len<=|buf| holds for every live and returned reader after every history of calls, clones, splits and drops with any arguments in debug and release; every reader, sub-reader and returned byte string is a run of the section bytes at its reported offset and length; offset ids map back to positions and only section addresses are accepted; the identity-relocating reader equals its inner reader for every call; the slice and pointer models agree on every call except `empty`, where the faithful EndianSlice model is refuted (known finding, proposed fix). The model is tied to gimli on every run: ~130k histories/blobs (exhaustive histories of length <=3 over 24 calls, random histories, UTF-8 grid) on six Rust reader kinds, compared with the model and with each other after every call.',
-    level_note='Partial: equality of the Rust reader kinds with the model is by differential execution only; memory safety of `unsafe`, Rc/Arc drop order and Send/Sync are outside the claim (exercised, explored-only). usize = u64 and allocations that do not wrap the address space (wf_alloc) are assumed. Known finding: EndianSlice::empty() forgets the position (proposed_fixes/endian_slice_empty_keeps_position.diff).',
+    level_text='Coq theorems over a function-by-function Gallina model of the reader kinds (one Reader-trait record instantiated for EndianReader/SubRange, EndianSlice and RelocateReader): the window invariant off+len<=|buf| holds for every live and returned reader after every history of calls, clones, splits and drops with any arguments in debug and release; every reader, sub-reader and returned byte string is a run of the section bytes at its reported offset and length; offset ids map back to positions and only section addresses are accepted; the identity-relocating reader equals its inner reader for every call; the slice and pointer models agree on every call and every history (the `empty` divergence found by this check was repaired in gimli fd639ac). The model is tied to gimli on every run: ~130k histories/blobs (exhaustive histories of length <=3 over 24 calls, random histories, UTF-8 grid) on six Rust reader kinds, compared with the model and with each other after every call.',
+    level_note='Partial: equality of the Rust reader kinds with the model is by differential execution only; memory safety of `unsafe`, Rc/Arc drop order and Send/Sync are outside the claim (exercised, explored-only). usize = u64 and allocations that do not wrap the address space (wf_alloc) are assumed.',
     technique='Coq proof (window invariant over all histories, view correctness, offset ids, identity relocation, slice/pointer model agreement) over a Gallina model of the Reader trait and its three implementations + differential correspondence with six gimli reader kinds (debug+release)',
 ))
